@@ -253,7 +253,7 @@ func checkAdapterContract(r *core.Run, a *analysis, f *fn, tn *types.TypeName, r
 			}
 		}
 		var nObj, errObj types.Object
-		for _, s := range loop.Body.List {
+		for _, s := range expandTaglessSwitch(loop.Body.List) {
 			switch s := s.(type) {
 			case *ast.AssignStmt:
 				if len(s.Lhs) == 2 && len(s.Rhs) == 1 {
@@ -306,4 +306,49 @@ func checkAdapterContract(r *core.Run, a *analysis, f *fn, tn *types.TypeName, r
 	r.Check(rule, name+"|held error is sticky", f.Decl.Pos(), stickyFirst, "the adapter must first return an error held back from the previous call")
 	r.Check(rule, name+"|bounded retry of empty reads", f.Decl.Pos(), loop != nil && bounded && retErrNoProgress, "a (0, nil) read must be retried a bounded number of times and then reported as io.ErrNoProgress (neither spin forever nor be treated as data or EOF)")
 	r.Check(rule, name+"|data before error", f.Decl.Pos(), dataFirst && errSecond, "when Read returns n > 0 together with an error the adapter must deliver the n bytes with a nil error and hold the error for the next call (and test n > 0 before err != nil)")
+}
+
+// expandTaglessSwitch rewrites `switch { case c1: B1 case c2: B2 … }` statements of a list into the equivalent
+// sequence `if c1 { B1 }; if c2 { B2 } …` when every case body but the last leaves (return / continue / break /
+// panic-free goto is not accepted), so that first-match semantics are preserved; other statements are kept.
+func expandTaglessSwitch(list []ast.Stmt) []ast.Stmt {
+	var out []ast.Stmt
+	for _, st := range list {
+		sw, ok := st.(*ast.SwitchStmt)
+		if !ok || sw.Tag != nil || sw.Init != nil {
+			out = append(out, st)
+			continue
+		}
+		okAll := true
+		var ifs []ast.Stmt
+		for i, c := range sw.Body.List {
+			cc := c.(*ast.CaseClause)
+			if cc.List == nil || len(cc.List) != 1 {
+				okAll = false
+				break
+			}
+			if i < len(sw.Body.List)-1 {
+				if len(cc.Body) == 0 {
+					okAll = false
+					break
+				}
+				switch last := cc.Body[len(cc.Body)-1].(type) {
+				case *ast.ReturnStmt:
+				case *ast.BranchStmt:
+					if last.Tok != token.CONTINUE {
+						okAll = false
+					}
+				default:
+					okAll = false
+				}
+			}
+			ifs = append(ifs, &ast.IfStmt{If: cc.Pos(), Cond: cc.List[0], Body: &ast.BlockStmt{Lbrace: cc.Pos(), List: cc.Body, Rbrace: cc.End()}})
+		}
+		if !okAll {
+			out = append(out, st)
+			continue
+		}
+		out = append(out, ifs...)
+	}
+	return out
 }
